@@ -328,7 +328,7 @@ pub fn run(ctx: &mut Ctx) {
     ctx.exhaustive.insert("all 400 error codes x {ERROR-CODE, ADDRESS-ERROR-CODE}".into(), ctx.only.is_none());
 
     // XOR addresses: every transaction-id byte participates exactly where the RFC says
-    let n = ctx.n(300, 20_000);
+    let n = ctx.n(2_000, 40_000);
     ctx.cases("xor", n, |ctx, case, rng| {
         let addr = gen::sockaddr(rng);
         let kind = *rng.pick(&[2usize, 18, 19]);
@@ -363,7 +363,7 @@ pub fn run(ctx: &mut Ctx) {
     });
 
     // every kind with generated values; noise: random, all-ones, and exhaustive small domains
-    let per_kind = ctx.n(300, 20_000);
+    let per_kind = ctx.n(2_000, 40_000);
     ctx.cases("kinds", per_kind * gen::ORDINARY_KINDS as u64, |ctx, case, rng| {
         let kind = (case % gen::ORDINARY_KINDS as u64) as usize;
         let a = gen::attr_of_kind(rng, kind, &cfg);
@@ -409,7 +409,7 @@ pub fn run(ctx: &mut Ctx) {
 
     // random messages, both directions
     let max_attrs = if ctx.quick() { 10 } else { 30 };
-    let n = ctx.n(15_000, 800_000);
+    let n = ctx.n(100_000, 2_000_000);
     ctx.cases("msgs", n, |ctx, case, rng| {
         let m = gen::message(rng, max_attrs, &cfg);
         let nontrivial = !m.attrs.is_empty();
